@@ -44,3 +44,31 @@ Theorem c05_returns_failure_literal_refuted :
     build_cancel rules env F order n fuel s k = Ok s'.
 Proof. exact returns_failure_literal_refuted. Qed.
 Print Assumptions c05_returns_failure_literal_refuted.
+
+(* ---------- c05_persisted_only_completed ---------- *)
+
+(* Whatever the outcome of a build with a cancellation request (completed, cancelled, real cycle): a database row
+   differs from the one before the build only for a key x that has an `EComplete x v` event in THIS build's log, and
+   the row is then exactly what that completion recorded: value v, the rule's signature, builtAt = the build's epoch,
+   the dependency list of that same execution (requested dependencies in recorded order ++ discovered ones).
+   Keys without completion in this build - in particular the tasks in progress - keep their old rows. *)
+Theorem c05_persisted_only_completed : forall rules env F order n fuel s k o s',
+  build_cancel rules env F order n fuel s k = o -> has_state o s' ->
+  (forall x, get (st_db s') x = get (st_db s) x \/
+             exists v, In (EComplete x v) (build_log s' (length (st_log s))) /\
+                       row_of_completion rules order (st_epoch s + 1) x v (get (st_db s') x)) /\
+  (forall x, completed_in (build_log s' (length (st_log s))) x = false -> get (st_db s') x = get (st_db s) x).
+Proof. exact persisted_only_completed. Qed.
+Print Assumptions c05_persisted_only_completed.
+
+(* ---------- c05_flags_exact ---------- *)
+
+(* after a cancelled build a key is flagged iff it was flagged before or was created in this build, and did not complete *)
+Theorem c05_flags_exact : forall rules env F order n fuel s k s',
+  build_cancel rules env F order n fuel s k = Cycle s' [] ->
+  forall x, let l := build_log s' (length (st_log s)) in
+  flagged s' x = true <->
+  (flagged s x = true /\ ~ (exists v, In (EComplete x v) l)) \/
+  (In (ECreate x) l /\ ~ (exists v, In (EComplete x v) l)).
+Proof. exact flags_exact_iff. Qed.
+Print Assumptions c05_flags_exact.
